@@ -430,10 +430,11 @@ def lane_main(args):
 
 def write_replay(prop, tr, batch_seed, tier):
     from . import world
-    os.makedirs(os.path.join(ROOT, "replays"), exist_ok=True)
+    rdir = os.environ.get("VERIF_REPLAY_DIR") or os.path.join(ROOT, "replays")
+    os.makedirs(rdir, exist_ok=True)
     spec = tr["spec"]
     name = "%s-%d-%s.json" % (prop.id, tr["seed"] % 10**10, spec_digest(spec)[:8])
-    path = os.path.join(ROOT, "replays", name)
+    path = os.path.join(rdir, name)
     doc = {"property": prop.id, "violation": tr["detail"], "key": tr["key"], "seed": tr["seed"], "idx": tr["idx"],
            "batch_seed": batch_seed, "tier": tier, "orig_spec_digest": tr.get("orig_digest"),
            "minimisation": tr.get("min"), "spec": spec}
@@ -585,7 +586,7 @@ def run_batch(pid, tier, batch_seed, nlanes=None, budget_s=None, count=None):
         if cp.returncode == 1:
             n_viol += 1
             exit_code = 1
-            print("VIOLATION property=%s replay=%s" % (pid, os.path.relpath(path, ROOT)))
+            print("VIOLATION property=%s replay=%s" % (pid, os.path.relpath(path, ROOT) if path.startswith(ROOT) else path))
             print("  class: %s" % tr["key"])
             print("  detail: %s" % str(tr["detail"].get("detail"))[:600])
             print("  seed=%d idx=%d minimised %s" % (tr["seed"], tr["idx"], json.dumps(tr.get("min", {}))[:300]))
@@ -614,7 +615,8 @@ def run_batch(pid, tier, batch_seed, nlanes=None, budget_s=None, count=None):
 
 
 def write_evidence(prop, tier, batch_seed, agg, wall, n_viol, harness_errors, nlanes):
-    os.makedirs(os.path.join(ROOT, "evidence"), exist_ok=True)
+    edir = os.environ.get("VERIF_EVIDENCE_DIR") or os.path.join(ROOT, "evidence")
+    os.makedirs(edir, exist_ok=True)
     cov = {
         "evaluations": int(agg["evaluations"]),
         "distinct_nontrivial": len(agg["digests"]),
@@ -647,5 +649,5 @@ def write_evidence(prop, tier, batch_seed, agg, wall, n_viol, harness_errors, nl
         cov["exhaustive_parts"] = prop.exhaustive_note
     ev = {"property_id": prop.id, "tier": tier, "seed": int(batch_seed), "level": prop.level, "coverage": cov,
           "assumptions": list(prop.assumptions), "wall_s": round(wall, 2), "violations": n_viol}
-    with open(os.path.join(ROOT, "evidence", prop.id + ".json"), "w") as f:
+    with open(os.path.join(edir, prop.id + ".json"), "w") as f:
         json.dump(ev, f, indent=1, sort_keys=True, default=_jsonable)
